@@ -413,4 +413,91 @@ theorem token_hid (st : LexState) (hn : st.nextTokens = []) (r : Option Token) (
       rw [hfresh]
       exact ⟨fun hne => absurd rfl hne, HidInv.nil _ _⟩
 
+/-! ### the robust part of the invariant: every captured comment is a comment token of the source
+     (no position bound: it survives `backtracked_token` and the pushing back of tokens) -/
+
+def AllOK (text : List Char) (l : List Comment) : Prop := ∀ c ∈ l, CommentOK text c
+
+theorem tokenLoop_allok : ∀ (fuel : Nat) (st : LexState) (r : Option Token) (st' : LexState),
+    tokenLoop fuel st = .ok (r, st') → AllOK st.text st.hiddenTokens → AllOK st.text st'.hiddenTokens := by
+  intro fuel
+  induction fuel with
+  | zero => intro st r st' h; simp [tokenLoop] at h
+  | succ fuel ih =>
+    intro st r st' h hinv
+    have hrec : ∀ (st1 : LexState), st1.text = st.text → AllOK st1.text st1.hiddenTokens →
+        tokenLoop fuel st1 = .ok (r, st') → AllOK st.text st'.hiddenTokens := by
+      intro st1 ht hi hr
+      have := ih st1 r st' hr hi
+      rw [ht] at this
+      exact this
+    have hsame : ∀ (st1 : LexState), st1.text = st.text → st1.hiddenTokens = st.hiddenTokens →
+        AllOK st1.text st1.hiddenTokens := by
+      intro st1 ht hh
+      rw [ht, hh]; exact hinv
+    unfold tokenLoop at h
+    split at h
+    · split at h
+      · simp at h
+      · rename_i st1 hg
+        simp at h
+        obtain ⟨rfl, rfl⟩ := h
+        have hraw := getUpdateToken_spec _ _ _ hg
+        have := hsame _ hraw.1.1 (getUpdateToken_hid _ _ _ hg)
+        rw [hraw.1.1] at this
+        exact this
+      · rename_i t0 st1 hg
+        have hraw := getUpdateToken_spec _ _ _ hg
+        have hk := hsame _ hraw.1.1 (getUpdateToken_hid _ _ _ hg)
+        split at h
+        · exact hrec st1 hraw.1.1 hk h
+        · simp at h
+          obtain ⟨rfl, rfl⟩ := h
+          rw [hraw.1.1] at hk
+          exact hk
+    · split at h
+      · split at h
+        · simp at h
+        · rename_i st1 hg
+          simp at h
+          obtain ⟨rfl, rfl⟩ := h
+          have hraw := getUpdateToken_spec _ _ _ hg
+          have := hsame _ hraw.1.1 (getUpdateToken_hid _ _ _ hg)
+          rw [hraw.1.1] at this
+          exact this
+        · rename_i t0 st1 hg
+          have hraw := getUpdateToken_spec _ _ _ hg
+          have hh := getUpdateToken_hid _ _ _ hg
+          have hk := hsame _ hraw.1.1 hh
+          have hdone : AllOK st.text st1.hiddenTokens := by
+            rw [hraw.1.1] at hk
+            exact hk
+          split at h
+          · split at h
+            · rename_i hcm
+              split at h
+              · simp at h
+                obtain ⟨rfl, rfl⟩ := h
+                exact hdone
+              · split at h
+                · refine hrec { st1 with hiddenTokens := st1.hiddenTokens ++ [t0.toComment] } hraw.1.1 ?_ h
+                  show AllOK st1.text (st1.hiddenTokens ++ [t0.toComment])
+                  rw [hraw.1.1, hh]
+                  intro c hc
+                  rw [List.mem_append] at hc
+                  rcases hc with hc | hc
+                  · exact hinv c hc
+                  · simp only [List.mem_singleton] at hc
+                    subst hc
+                    exact (rawStep_comment hraw hcm).1
+                · exact hrec st1 hraw.1.1 hk h
+            · exact hrec st1 hraw.1.1 hk h
+          · simp at h
+            obtain ⟨rfl, rfl⟩ := h
+            exact hdone
+      · have hraw := divOrRegex_spec _ _ _ h
+        have := hsame _ hraw.1.1 (divOrRegex_hid _ _ _ h)
+        rw [hraw.1.1] at this
+        exact this
+
 end CalmVerif.Proofs.Comments
